@@ -414,6 +414,10 @@ func (c *Ctx) checkSetOnlyAtConstruction(rule, short, typ string, fields ...stri
 				if isAl && al.Parent() == st.Parent() {
 					continue
 				}
+				// an element of a slice allocated in this function (filled before it is published)
+				if ms, isMS := root.(*ssa.MakeSlice); isMS && ms.Parent() == st.Parent() {
+					continue
+				}
 				// the struct came fresh out of an in-module constructor helper and is still being set up
 				if call, isCall := root.(*ssa.Call); isCall {
 					if g := staticCallee(call); g != nil && c.inModule(g) && g.Blocks != nil {
